@@ -66,6 +66,9 @@ def generate(streams: core.Streams, tier: str) -> dict:
         ls = copy.deepcopy(gen.pick(w, docs)["logsource"])
         docs.append(gen.gen_filter(w, f"F{i}", target, ls, names))
         kinds.add("filter")
+        if gen.chance(f, 0.08):  # a broken filter: its condition names a detection it does not define
+            docs[-1]["filter"]["condition"] = "not undefined_det"
+            kinds.add("filter_condition_names_undefined_detection")
     # correlation rules, some malformed
     for i in range(w.choice([0, 0, 1, 1, 2])):
         refs = [gen.pick(w, [d for d in docs if "detection" in d])["name"] for _ in range(w.randint(1, 2))]
@@ -372,6 +375,14 @@ def _diffs_inside_reprs(a: Any, b: Any) -> bool:
     return a == b
 
 
+def _undefined_in_filter(doc: dict) -> bool:
+    fl = doc["filter"]
+    names = {k for k in fl if k not in ("rules", "condition")}
+    toks = re.findall(r"[A-Za-z0-9_*-]+", str(fl.get("condition", "")))
+    return any(t not in names and t not in ("not", "and", "or", "1", "all", "any", "of", "them") and "*" not in t
+               for t in toks)
+
+
 def tags(sc: dict, violation: dict) -> set[str]:
     t: set[str] = set()
     if violation.get("oracle") == "all-process-starts-agree":
@@ -385,6 +396,9 @@ def tags(sc: dict, violation: dict) -> set[str]:
                 only_messages = False
         if only_messages and _mask(got) == _mask(want) and _diffs_inside_reprs(got, want):
             t.add("error-message-embeds-object-repr")
+        broken = any("filter" in d and _undefined_in_filter(d) for d in sc.get("documents", []))
+        if only_messages and broken and _mask(got) == _mask(want) and "not defined in detections" in json.dumps(got):
+            t.add("filter-condition-names-undefined-detection")
     if "forced_prefix_collision" in sc.get("kinds", []) and any(c.get("forced_draws") for c in violation.get("configs", [])):
         names = [k for d in sc["documents"] if "detection" in d for k in d["detection"]]
         if any(n.startswith("_filt_qqqqqqqqqq") or n.startswith("_cond_qqqqqqqqqq") for n in names):
